@@ -16,6 +16,10 @@ RULE = (
     "(3) every formula of the pool x every assignment of codings {variable, C, T(ref), S, S(omit), C(.,Sum), "
     "C(.,Treatment(ref))} to its factors: the column space of the common (and group) matrix must not change.  "
     "Non-trivial: more than two levels, or a non-default coding"
+    '  Added: levels= as a tuple, nested boxes C(S(v), levels=lv), str / ordered / unordered (unsorted '
+    'categories) columns for the plain variable, C(v), T(v); labels read twice and per term; the call followed '
+    'by another term; later frames after the caller rebound lv, with an ordered Categorical declaring another '
+    'order, and with one unseen level in silent mode. '
 )
 ASSUMPTIONS = ["rank decisions by SVD with a gap check", "the same encoding object may be used for several factors (C(f, enc) + C(g, enc))"]
 
